@@ -19,6 +19,8 @@ def load_contracts():
 def generate(reg, key):
     """-> (obligations, info) for one contract key; raises OutOfSubset / ContractDrift."""
     c = reg.contracts[key]
+    if c.is_lemma:
+        return generate_lemma(reg, c)
     mod = extract.module(c.module)
     fn = mod.function(c.qualname)
     if fn is None:
@@ -31,3 +33,21 @@ def generate(reg, key):
                 normal_paths=eng.n_normal, inlined=sorted(set(eng.inlined)), used_schemas=sorted(set(eng.assumed)),
                 lineno=fn.lineno)
     return obls, info
+
+
+def generate_lemma(reg, c):
+    """A lemma is a closed statement over the specification vocabulary: for all parameters, requires => ensures."""
+    from .state import State
+    from .vals import fresh
+    eng = Exec(reg, c, None, None, None)
+    st = State()
+    for name, t in c.params.items():
+        st.vars[name] = fresh(t, name)
+    st.old = dict(st.vars)
+    for e, t in eng.spec_conj(c.requires, st):
+        st.assume(t)
+    eng.cover(st, "hypotheses", 0)
+    for e, t in eng.spec_conj(c.ensures, st):
+        eng.oblige(st, t, "lemma", f"lemma[{e[:60]}]", 0)
+    info = dict(key=c.key, module=None, qualname=c.key, hash="lemma", paths=1, normal_paths=1, inlined=[], used_schemas=[], lineno=0)
+    return eng.obls, info
